@@ -107,6 +107,7 @@ package common
 //@   ensures [nowriteat] fwcount == old(fwcount)
 //@   ensures [created] ncreated <= old(ncreated) + 1 && (ncreated == old(ncreated) + 1 ==> createdpath == dstPath)
 //@   ensures [success] err == nil ==> ncreated == old(ncreated) + 1
+//@   ensures [whole] err == nil ==> copysrc == lastret("os.Open", 0) && copydst == lastret("os.Create", 0) && lastret("io.Copy", 0) == flen && osopenpath == srcPath     -- the WHOLE source file is copied (the reader handed to io.Copy is the source file itself, not a section of it, and the byte count equals the file length): the active meta page may reference pages beyond what meta page 0 calls the high-water mark
 
 // ---------------------------------------------------------------- page element views (unsafe: trusted, A-unsafe)
 // brelem/lfelem name the element structs inside the page buffer, bkeyof/lkeyof the key bytes they point to.
